@@ -91,6 +91,14 @@ def r_pred(p):
 COLS = ["", "(a)", "(b)", "(b, a)"]
 
 
+PREFIX = [""]
+
+
+def tn(t):
+    """the table as the statement names it: unqualified, or fully qualified into a database that is not the session's current one"""
+    return PREFIX[0] + TABLES[t]
+
+
 def r_stmt(s):
     k = s[0]
     if k == "insv":
@@ -99,17 +107,17 @@ def r_stmt(s):
             vals = ", ".join(f"({r_val(a)}, {r_val(b)})" for a, b in rows)
         else:
             vals = ", ".join(f"({r_val(a)})" for a, _ in rows)
-        return f"INSERT INTO {TABLES[t]} {COLS[c]} VALUES {vals}"
+        return f"INSERT INTO {tn(t)} {COLS[c]} VALUES {vals}"
     if k == "inss":
         _, t, c, src, p = s
         sel = "a, b" if c in (0, 3) else "a"
-        return f"INSERT INTO {TABLES[t]} {COLS[c]} SELECT {sel} FROM {TABLES[src]} WHERE {r_pred(p)}"
+        return f"INSERT INTO {tn(t)} {COLS[c]} SELECT {sel} FROM {tn(src)} WHERE {r_pred(p)}"
     if k == "upd":
         _, t, sb, e, p = s
-        return f"UPDATE {TABLES[t]} SET {'b' if sb else 'a'} = {r_term(e)} WHERE {r_pred(p)}"
+        return f"UPDATE {tn(t)} SET {'b' if sb else 'a'} = {r_term(e)} WHERE {r_pred(p)}"
     if k == "del":
-        return f"DELETE FROM {TABLES[s[1]]} WHERE {r_pred(s[2])}"
-    return f"TRUNCATE TABLE {TABLES[s[1]]}"
+        return f"DELETE FROM {tn(s[1])} WHERE {r_pred(s[2])}"
+    return f"TRUNCATE TABLE {tn(s[1])}"
 
 
 def e_term(t):
@@ -160,19 +168,30 @@ def e_stmt(s):
 STATUS_NAMES = {"number of rows inserted": 0, "number of rows updated": 1, "number of rows deleted": 2}
 
 
-def dump(admin):
+def dump(admin, db="DB1"):
     out = []
     for t in ADMIN:
-        rows = admin.execute(f"select a, b from {t}").fetchall()
+        rows = admin.execute(f"select a, b from {t.replace('DB1.', db + '.', 1)}").fetchall()
         out.append(sorted(([core.opt(a), core.opt(b)] for a, b in rows), key=repr))
     return out
 
 
-def run_impl(stmts):
+def run_impl(stmts, other_db=False):
+    """other_db: the statements name their tables fully qualified in DB2 while the session's current database DB1 has tables of the
+    same names (one sentinel row each), which must stay exactly as they are"""
     fs, conn = fsutil.fresh()
     cur = conn.cursor()
     for t in TABLES:
         cur.execute(f"create table {t} (a int, b int)")
+    db = "DB1"
+    if other_db:
+        db = "DB2"
+        cur.execute("create database db2")
+        cur.execute("create schema db2.s1")
+        for t in TABLES:
+            cur.execute(f"create table db2.s1.{t} (a int, b int)")
+            cur.execute(f"insert into {t} values (777, 777)")
+        PREFIX[0] = "db2.s1."
     admin = fs.duck_conn.cursor()
     obs = []
     for j, s in enumerate(stmts):
@@ -192,7 +211,10 @@ def run_impl(stmts):
                 rep = [[kind, rows[0][0]] if ok_shape and isinstance(rows[0][0], int) else [9, S(repr(rows))], cur.rowcount if cur.rowcount is not None else -1]
         except Exception as e:  # noqa: BLE001
             rep = [[8, S(type(e).__name__)], -1]
-        obs.append([rep, dump(admin)])
+        obs.append([rep, dump(admin, db)])
+    PREFIX[0] = ""
+    if other_db and dump(admin) != [[[[777], [777]]]] * 3:
+        obs.append([[[7, S("the same-named tables of the current database changed: " + repr(dump(admin)))], -1], dump(admin, db)])
     fs.duck_conn.close()
     return obs
 
@@ -337,10 +359,21 @@ def main():
     for _ in range(n):
         seqs.append([g_stmt(ck.rng) for _ in range(ck.rng.randint(5, 14))])
     cases = [[e_stmt(s) for s in seq] for seq in seqs]
-    impl = [run_impl(seq) for seq in seqs]
+    # every fourth sequence names its tables fully qualified in ANOTHER database than the session's current one, which holds tables of the same names
+    other = [i % 4 == 3 for i in range(len(seqs))]
+    impl = [run_impl(seq, o_) for seq, o_ in zip(seqs, other)]
     reported = False
     zero = 0
-    for seq, obs in zip(seqs, impl):
+    for k_, (seq, obs) in enumerate(zip(seqs, impl)):
+        if len(obs) > len(seq):
+            PREFIX[0] = "db2.s1."
+            if not reported:
+                reported = True
+                ck.violation(f"statements {[r_stmt(s) for s in seq]} (current database DB1, which has tables of the same names): {unstr(obs[-1][0][0][1])}",
+                             {"statements": [r_stmt(s) for s in seq], "current_database": "DB1", "observed": obs})
+            PREFIX[0] = ""
+            impl[k_] = obs = obs[:len(seq)]
+        ck.count("names:other-database" if other[k_] else "names:unqualified")
         for s, (rep, _) in zip(seq, obs):
             ck.count(f"stmt:{s[0]}")
             if s[0] != "trunc" and rep[0][0] in (0, 1, 2):
@@ -348,9 +381,13 @@ def main():
         msg = oracle(seq, obs)
         if msg and not reported:
             reported = True
-            small = core.shrink_list(seq, lambda c: oracle(c, run_impl(c)) is not None)
-            ck.violation(f"statements {[r_stmt(s) for s in small]}: {oracle(small, run_impl(small))}",
-                         {"statements": [r_stmt(s) for s in small], "observed": run_impl(small)})
+            o_ = other[k_]
+            small = core.shrink_list(seq, lambda c: oracle(c, run_impl(c, o_)[:len(c)]) is not None)
+            PREFIX[0] = "db2.s1." if o_ else ""
+            texts = [r_stmt(s) for s in small]
+            PREFIX[0] = ""
+            ck.violation(f"statements {texts}: {oracle(small, run_impl(small, o_)[:len(small)])}",
+                         {"statements": texts, "observed": run_impl(small, o_)})
     model = core.model_eval("run_c04", cases)
     ck.cov["evaluations"] += len(cases)
     dis = [i for i, (m, o) in enumerate(zip(model, impl)) if canon_model(m) != o]
@@ -362,11 +399,11 @@ def main():
         i = dis[0]
 
         def differs(c):
-            return canon_model(core.model_eval("run_c04", [[e_stmt(s) for s in c]])[0]) != run_impl(c)
+            return canon_model(core.model_eval("run_c04", [[e_stmt(s) for s in c]])[0]) != run_impl(c, other[i])[:len(c)]
 
         small = core.shrink_list(seqs[i], differs)
         mo = canon_model(core.model_eval("run_c04", [[e_stmt(s) for s in small]])[0])
-        io = run_impl(small)
+        io = run_impl(small, other[i])[:len(small)]
         k = next((j for j, (a, b) in enumerate(zip(mo, io)) if a != b), 0)
         ck.violation(
             f"model and implementation differ after {[r_stmt(s) for s in small]}: step {k}: model {mo[k]} impl {io[k]}; {len(dis)} disagreements; "
